@@ -41,6 +41,7 @@ type seqOracle struct {
 	// (client->server) or announced by the scenario (server->client)
 	opnSeen   int
 	renewSeen bool
+	abandoned map[uint32]bool
 }
 
 // context separates violations that need a renewal from those that do not:
@@ -98,10 +99,22 @@ func (o *seqOracle) frame(fr []byte) {
 		}
 	}
 	o.last, o.have = ch.Seq, true
-	if o.openHas && ch.RequestID != o.openReq {
+	if o.abandoned[ch.RequestID] {
+		// chunks of another request were written after this request's intermediate chunks,
+		// and now it goes on: that is interleaving
 		o.failed = true
-		o.s.Fail(o.prop, "interleaved-chunks", o.name+o.context(), "%s: chunk of request %d between the chunks of request %d; last chunks: %v", o.name, ch.RequestID, o.openReq, o.history)
+		o.s.Fail(o.prop, "interleaved-chunks", o.name+o.context(), "%s: request %d goes on after chunks of another request were written in between; last chunks: %v", o.name, ch.RequestID, o.history)
 		return
+	}
+	if o.openHas && ch.RequestID != o.openReq {
+		// the open message may have been given up (its sender's context ended between two
+		// chunks): only if it ever goes on is this interleaving
+		if o.abandoned == nil {
+			o.abandoned = map[uint32]bool{}
+		}
+		o.abandoned[o.openReq] = true
+		o.openHas = false
+		o.s.Probe("multi-chunk-message-abandoned-" + o.name)
 	}
 	switch ch.ChunkType {
 	case 'C':
@@ -128,6 +141,9 @@ type renewPlan struct {
 	// CancelEvery > 0: every n-th request of a sender is issued with a context that is
 	// already cancelled (or ends within a millisecond); it may fail, nothing else may
 	CancelEvery int `json:"cancelled_context_every,omitempty"`
+	// WindowBytes > 0: the client's writes go through a finite send window (a peer that
+	// reads with some delay), so that a multi-chunk request blocks between two chunks
+	WindowBytes int `json:"client_send_window,omitempty"`
 	// RealServer: the peer is a real server-kind uasc.SecureChannel whose
 	// responses are sent by concurrent responder goroutines instead of the script
 	RealServer   bool   `json:"real_server_channel"`
@@ -155,6 +171,9 @@ func (r *renewRun) setup(s *sim.Sim, mode string) {
 	r.LatencyUs = sim.Pick(p, 0, 200, 2000)
 	r.FreshToken = p.Bool()
 	r.CancelEvery = sim.Pick(p, 0, 0, 3, 5)
+	if p.Intn(3) == 0 {
+		r.WindowBytes = 4096
+	}
 	r.StartSeq = sim.Pick(p, uint32(0), 0, 0xffffffff-1030, 0xffffffff-1024-3)
 	if mode == "c11" {
 		// a fifth of the runs has no renewal at all: whatever goes wrong
@@ -207,7 +226,10 @@ func (r *renewRun) Main(s *sim.Sim) {
 	var mu sync.Mutex
 	var opns []opnEv
 	var toks []tokEv
-	s.Net.OnConn = func(c *sim.Conn) { c.C2S.Observers = append(c.C2S.Observers, c2s.frame) }
+	s.Net.OnConn = func(c *sim.Conn) {
+		c.C2S.Observers = append(c.C2S.Observers, c2s.frame)
+		c.C2S.Window = r.WindowBytes
+	}
 	srv.OnOpen = func(c *rawSrvConn, reqID uint32, req *ua.OpenSecureChannelRequest) bool {
 		mu.Lock()
 		opns = append(opns, opnEv{at: s.Now(), renew: req.RequestType == ua.SecurityTokenRequestTypeRenew})
@@ -406,6 +428,7 @@ func (r *renewRun) mainRealServer(s *sim.Sim) {
 	s2c := &seqOracle{s: s, prop: "C11", name: "server->client"}
 	s.Net.OnConn = func(c *sim.Conn) {
 		c.C2S.Observers = append(c.C2S.Observers, c2s.frame)
+		c.C2S.Window = r.WindowBytes
 		c.S2C.Observers = append(c.S2C.Observers, func(fr []byte) {
 			s2c.renewSeen = c2s.renewSeen // a renewal is requested by the client
 			s2c.frame(fr)
